@@ -791,8 +791,19 @@ func convertToExp(parser *syntax.Parser, split bool, val json.Marshaler,
 			if err := json.Unmarshal(val, &jv); err != nil {
 				return nil, err
 			}
-			exp, err := convertToExp(parser, false,
-				jv.Split, tname, lookup)
+			// The value is an array or a map of values of the
+			// parameter's type: the type applies to its elements.
+			exp, err := parser.ParseValExp(jv.Split)
+			switch exp := exp.(type) {
+			case *syntax.ArrayExp:
+				for _, e := range exp.Value {
+					fixExpressionTypes(e, tname, lookup)
+				}
+			case *syntax.MapExp:
+				for _, e := range exp.Value {
+					fixExpressionTypes(e, tname, lookup)
+				}
+			}
 			if n, ok := exp.(*syntax.NullExp); ok {
 				return n, err
 			}
